@@ -11,6 +11,7 @@ use crate::tok_ref::{self, show};
 
 const TOKENIZERS: [&str; 6] = ["lines", "lines_and_newlines", "words", "chars", "unicode_words", "graphemes"];
 
+#[cfg(feature = "bytes")]
 fn tokenize_bytes(which: usize, b: &[u8]) -> Vec<&[u8]> {
     match which {
         0 => b.tokenize_lines(),
@@ -151,8 +152,16 @@ fn check_input(input: &[u8], skip_bstr_unicode: bool, out: &mut Local) {
         }
         let name = TOKENIZERS[which];
         // --- [u8]
+        #[cfg(feature = "bytes")]
         out.eval();
         // (Miri stage: bstr's lazily built word/grapheme automata take minutes to initialise there)
+        #[cfg(not(feature = "bytes"))]
+        let br: Option<Vec<Range<usize>>> = {
+            // build without the `bytes` feature: [u8] is no text type there; str only
+            let _ = skip_bstr_unicode;
+            None
+        };
+        #[cfg(feature = "bytes")]
         let br = if skip_bstr_unicode && which >= 4 {
             None
         } else {
@@ -285,6 +294,39 @@ pub fn families() -> Vec<Box<dyn Family>> {
                 out.sample(|| format!("{} bytes, starts {}", t.len(), show(&t[..t.len().min(40)])));
                 out.nontrivial(&t);
                 out.count("long_inputs_tokenized");
+                check_input(&t, cfg.tiny, out);
+            },
+        ),
+        family(
+            "block_boundaries",
+            "a feature (CRLF, lone CR, LF, CR CR LF, a blank, é, U+2028, an emoji, an invalid byte) placed so that it starts 3, 2, 1, 0 bytes before / 1 byte after every power-of-two offset B in {4096, 8192, 16384, 32768, 65536, 131072} of an otherwise boring ASCII text (implementations that scan in blocks must not split or miss it) x 6 tokenizers x {[u8], str when valid}",
+            true,
+            1,
+            |cfg| if cfg.tiny { 4 } else { 6 * 9 * 5 },
+            |idx, cfg, out| {
+                let feats: [&[u8]; 9] = [b"\r\n", b"\r", b"\n", b"\r\r\n", b" ", "\u{e9}".as_bytes(), "\u{2028}".as_bytes(), "\u{1f600}".as_bytes(), b"\xff"];
+                let b = if cfg.tiny { 64usize } else { 4096usize << (idx / 45) };
+                let f = feats[(idx / 5 % 9) as usize];
+                let d = (idx % 5) as usize; // feature starts at b - 3 + d
+                let at = b - 3 + d;
+                let mut t: Vec<u8> = Vec::with_capacity(b + 128);
+                let filler = b"lorem ipsum dolor\n";
+                while t.len() < at {
+                    t.push(filler[t.len() % filler.len()]);
+                }
+                // the byte before the feature must not be CR / LF (it would merge with it)
+                if let Some(x) = t.last_mut() {
+                    if *x == b'\n' {
+                        *x = b'x';
+                    }
+                }
+                t.extend_from_slice(f);
+                for i in 0..100 {
+                    t.push(b"next words here\n"[i % 16]);
+                }
+                out.sample(|| format!("{} bytes, feature {} at offset {} (block boundary {})", t.len(), show(f), at, b));
+                out.nontrivial(&(b, at, f));
+                out.count("block_boundary_inputs");
                 check_input(&t, cfg.tiny, out);
             },
         ),
